@@ -10,7 +10,7 @@ META = {
  'C14': dict(
   text=("Kernel-checked theorems (Vise/Props/C14.lean) that for every encodable instruction and every non-empty program the model decoder returns exactly the "
         "encoded instructions and consumes exactly their bytes, for all symbol lengths 1..255 and all numbers < 2^32 in every width NewLine may use; the disassembler listing is the same "
-        "instructions; NewLine and the assembler writers produce identical bytes. The model is tied to vm/vm.go, vm/debug.go and asm writeSym/writeSize by running both on ~120k (quick) generated, "
+        "instructions; NewLine and the assembler writers produce identical bytes; integers handed to NewLine in every width 0..4 (0 bytes = the empty encoding of zero) followed by another instruction are compared and decoded as well. The model is tied to vm/vm.go, vm/debug.go and asm writeSym/writeSize by running both on ~120k (quick) generated, "
         "truncated, corrupted and exhaustively enumerated byte strings and comparing every line; numSize (float) is compared with the integer width for every uint32 in the thorough tier."),
   note=("Trusted: Lean kernel + propext/Classical.choice/Quot.sound; the hand-written model (sampled agreement); harness + extractor; math.Log2 (validated exhaustively, not proved). "
         "Opcode table regenerated from vm/opcodes.go on every run and re-decided by the kernel.")),
@@ -34,7 +34,7 @@ META['C09'] = dict(
 
 
 _ENG_NOTE = ("Trusted: Lean kernel + propext/Classical.choice/Quot.sound; the hand-written engine model (Vise/State, Cache, Render, Vm, Engine .lean) whose agreement with the Go code is sampled: "
-             "every generated session history is run on the real engine (long-lived and per-request with persister) and on the compiled model, and ALL exported state fields, outputs, call and lookup logs are compared per request; "
+             "every generated session history is run on the real engine (long-lived, per-request with persister, and - a quarter of them - long-lived with a persister) and on the compiled model, and ALL exported state fields, outputs, call and lookup logs are compared per request; fractions of the histories are served with bytecode produced by the real assembler from the instructions' source text (justified by assemble_faithful), through resource.DbResource (handlers or STATICLOAD entries, application and session in one store), with a flushing persister, and next to a shadow session on shared bytecode slices - the model is not told; "
              "text/template restricted to literals and {{.name}}; CBOR as snapshot/restore; resource and handlers as parameters; fuel-bounded Run (theorems for all fuel). ")
 
 META['C01'] = dict(
@@ -79,7 +79,7 @@ META['C08'] = dict(
 META['C17'] = dict(
   text=("Kernel-checked: a format-refused input makes Exec return its error with the engine EXACTLY as it was (exec_format_refused_no_effect: state, flags, cache, code, page, logs, bookkeeping), for every engine state, with or without first function; "
         "histories with refused inputs inserted anywhere observe the same as without them (longRun_erase_refused, by induction); a per-request engine leaves the store as it was; Flush before Exec is refused without effect; over-long input leaves the session untouched. "
-        "Holds since the fix: commit moving the format check before init. Oracle: two-run erasure comparison and state-unchanged check on the real engine in both modes."),
+        "Holds since the fix: commit moving the format check before init and, for a long-lived engine that is given a persister, since fix c056044 (a refused first input made every later request fail). Oracle: two-run erasure comparison and state-unchanged check on the real engine in all three serving modes."),
   note=_ENG_NOTE + "matchesInput is a hand-written matcher for the default pattern; custom validators are not modelled.")
 META['C18'] = dict(
   text=("Kernel-checked: unknown code leaves the language unchanged, valid code selects its ISO-639-3 form, empty result resets; the language survives snapshot/restore; every code lookup, function lookup and external call is logged with exactly the context language "
@@ -89,8 +89,8 @@ META['C18'] = dict(
 META['C20'] = dict(
   text=("Kernel-checked: empty code with DIRTY => stop, exiting, exit = last value (graceful_end_detected); code ending outside input handling sets TERMINATE; a fresh engine on a code-less stored session starts with MOVE <root> (restart_injects_entry); "
         "TERMINATE blocks every later run (from C06, for all programs); unwinding at a graceful end from ANY depth: reset succeeds and leaves the empty path, exactly the base cache scope, TERMINATE cleared and every flag other than TERMINATE/DIRTY (all client flags) unchanged "
-        "(engReset_unwinds, by induction over the depth, under one-scope-per-level), and a successful Flush of an ended session leaves exactly that (flush_state, flush_unwinds). That the session is marked ended exactly at a graceful end is graceful_end_detected plus correspondence and the direct oracle on stored ExecPath/Flags/Cache."),
-  note=_ENG_NOTE + "With WithFirst, blocked requests deliver the stale exit value (documented, outside the checked domain).")
+        "(engReset_unwinds, by induction over the depth, under one-scope-per-level), and a successful Flush of an ended session leaves exactly that (flush_state, flush_unwinds); a blocked session stays silent also with a first function (blocked_session_first_is_silent, since fix 5c54718). That the session is marked ended exactly at a graceful end is graceful_end_detected plus correspondence and the direct oracle on stored ExecPath/Flags/Cache/LastValue."),
+  note=_ENG_NOTE + "Open finding C20-blocked-request-renders-after-failed-request (a request that failed after TERMINATE was set leaves the page-pending flag stored) is replayed every run.")
 
 
 _DB_NOTE = ("Trusted: Lean kernel + standard axioms; the hand-written Db model (Vise/Db.lean) whose agreement with db/db.go, db/mem, db/fs (text and binary keys, Dump) and db/postgres (over harness/internal/pgfake) is sampled by identical "
@@ -103,7 +103,7 @@ META['C10'] = dict(
 META['C11'] = dict(
   text=("Kernel-checked: the storage key is injective on (type, session, key) for dot-free session ids both empty or both non-empty (storageKey_injective_on, via append_sep_inj), the type byte alone separates data types, hence isolation of reads from writes elsewhere on the memory map "
         "(mem_isolation; the pg wrapper uses the same keys), and the fs primary names are injective. Outside that domain the property is false: three kernel-evaluated negation witnesses (dot collision, empty-session collision, fs legacy name drops the type byte), "
-        "two open known findings replayed on mem, fs and pg-fake. Oracle: after every write every read is checked against a reference keyed by exact coordinates over an adversarial alphabet (dots, type characters, language-like suffixes, empty session)."),
+        "two open known findings replayed on mem, fs and pg-fake. Listing: every row the Postgres Dump hands out is a row of the table whose storage key starts with the storage key of (current type, session, requested prefix), so records of other types or sessions are never listed (pg_dump_confined, pg_dump_same_type; since fix 32ead21 - before it the listing ran on into higher data types). Oracle: after every write every read, and every listed entry of fs and pg Dump, is checked against a reference keyed by exact coordinates over an adversarial alphabet (dots, type characters, language-like suffixes, empty session, keys crafted to spell another session's file name)."),
   note=_DB_NOTE)
 
 META['C13'] = dict(
@@ -114,13 +114,13 @@ META['C13'] = dict(
         "for EVERY operation sequence and fault set from a fresh handle the driver's log is well bracketed - begin i / end i pairs with ids 0,1,2,.. in order plus one unmatched begin exactly when a transaction is open - so every transaction begun is ended exactly once and never two are open "
         "(log_well_bracketed, ended_exactly_once, by an invariant over all six operations). Holds since two fix: commits. "
         "Tie/oracle: ALL operation sequences up to length 3 (4 thorough) over a 10-op alphabet x no fault / every single / every pair of failing calls, plus 1500/30000 random longer sequences with up to 3 faults, on the real wrapper over the fake and on the model, every result, the begin/commit/rollback log, committed table and open flag compared."),
-  note=("Trusted: Lean kernel + standard axioms; the hand-written wrapper model and the abstract driver (which specifies the harness's in-process fake, not a PostgreSQL server); harness. pgDb.multi is never cleared by Stop (test-endorsed), so single-operation clauses are for handles never put into explicit mode. Dump is not modelled."))
+  note=("Trusted: Lean kernel + standard axioms; the hand-written wrapper model and the abstract driver (which specifies the harness's in-process fake, not a PostgreSQL server); harness. pgDb.multi is never cleared by Stop (test-endorsed), so single-operation clauses are for handles never put into explicit mode. The direct oracle also requires that no write of an open explicit transaction is visible before Stop. Dump is modelled under C11 (listing), not here."))
 
 META['C16'] = dict(
-  text=("Kernel-checked end to end (assemble_faithful): for EVERY program of documented line forms with safe arguments, in any layout (blank runs, trailing blanks/comments, CR/LF line ends with blank lines), batch lines last, the model of asm.Parse - "
+  text=("Kernel-checked end to end (assemble_faithful; assemble_faithful_general for menu batches ANYWHERE between the regular lines, each expanding where it stands with its own lines only - since fix 742ff25, before it a second batch repeated the first): for EVERY program of documented line forms with safe arguments, in any layout (blank runs, trailing blanks/comments, CR/LF line ends with blank lines), the model of asm.Parse - "
         "participle lexer (lex_text: a well-formed, separated token list is lexed back from its text), struct-tag grammar, numeric conversion (parseUint0_fmtUint), parseOne, MenuAdd, ToLines - succeeds and writes exactly the encodings of the "
         "instructions written, one per line, in order, batch lines expanded to MOUT/MNEXT/MPREV.. HALT INCMP..; composed with C14 the decoder returns exactly those instructions (assemble_decodes). Outside the safe domain the property is false: nine kernel-evaluated "
-        "witnesses (leading-zero and digit-led selectors altered, nil dereference, upper-case-led names and big numeric selectors refused, octal sizes), five open known findings; two fix: commits for over-long strings. "
+        "witnesses (leading-zero and digit-led selectors altered, nil dereference, upper-case-led names and big numeric selectors refused, octal sizes), five open known findings; three fix: commits (over-long strings, batch items kept). "
         "Tie/oracle: 14k/200k sources (valid programs with one risk feature each, layout variants, token soup) through asm.Parse and the model, bytes compared; lexer compared token by token with a participle lexer built from the source's rules; strconv conversions compared; "
         "an independent Go reading of every documented-valid source with its own encoder decides altered / refused / panic per line."),
   note=("Trusted: Lean kernel + standard axioms; hand-written model of participle v2.0.0 for this grammar (rule patterns, struct tags, elided types regenerated from asm/asm.go and pinned); the documented grammar transcribed by hand twice (Lean spec, Go oracle); harness. "
